@@ -495,7 +495,7 @@ fn main() {
     );
     cx.assume("leaf semantics of the reference evaluator are written from the documented attribute syntaxes");
     cx.assume("as admin the server-level oracle is one-directional (result ⊆ reference) because access controls may hide entries");
-    let n = cx.tier.pick(6_000, 300_000);
+    let n = cx.tier.pick(6_000, 90_000);
     cx.prop("backend", PropCfg::new(n).shrink(1500), arb_case, || (), |_, c| backend_case(c));
 
     let w = Weights {
@@ -510,7 +510,7 @@ fn main() {
         ..Weights::default()
     };
     let sal = server_alphabet();
-    let ns = cx.tier.pick(250, 6_000);
+    let ns = cx.tier.pick(250, 3_000);
     cx.prop(
         "server",
         PropCfg::new(ns).shrink(200),
